@@ -67,10 +67,10 @@ def showExc {α} (r : Except ZErr α) (f : α → String) : String :=
   | .error e => (Out.className e).replace " " ":"
 
 /-- Execute one call token; returns the response token and the new (state, device), or a panic. -/
-def stepCall (ext : WExt) (srcs : List (Archive × Dev)) (tok : String) (s : WState) (d : Dev) :
-    Option (String × WState × Dev) :=
+def stepCall (ext : WExt) (srcs : List (Archive × Dev)) (tok : String) (s : WState) (d : Dev)
+    (fa : Option Nat := none) : Option (String × WState × Dev) :=
   let run {α} (st : Step α) (f : α → String) : Option (String × WState × Dev) :=
-    match (st s).runPure d with
+    match (st s) fa d with
     | (.ok (r, s'), d') => some (showExc r f, s', d')
     | (.err e, d') => some ((Out.className e).replace " " ":", s, d')   -- not produced by Step functions
     | (.panic _, _) => none
@@ -110,20 +110,33 @@ def stepCall (ext : WExt) (srcs : List (Archive × Dev)) (tok : String) (s : WSt
     | (.err e, _) => some ("src:" ++ (Out.className e).replace " " ":", s, d)
     | (.panic _, _) => none
   | ["fin"] => run (finish ext) fun _ => "ok"
-  | ["drop"] => run (dropWriter ext) fun _ => "ok"
   | _ => some ("bad-call", s, d)
 
 def showFinal (d : Dev) : String :=
   if d.buf.length ≤ 6000 then s!"final={toHex d.buf}"
   else s!"final=crc:{(Spec.Crc32.crc32 d.buf).toNat}:{d.buf.length}"
 
-def runCalls (ext : WExt) (srcs : List (Archive × Dev)) :
+def runCallsF (ext : WExt) (srcs : List (Archive × Dev)) (fa : Option Nat) (tail : Dev → String) :
     List String → WState → Dev → List String → String
-  | [], _, d, acc => " ".intercalate acc.reverse ++ " " ++ showFinal d
+  | [], s, d, acc =>
+    -- the harness drops the writer at the end of every run (after an explicit `drop` this is a no-op)
+    match (dropWriter ext s) fa d with
+    | (.panic _, _) => " ".intercalate ("panic" :: acc).reverse
+    | (_, d') => " ".intercalate acc.reverse ++ " " ++ showFinal d' ++ tail d'
   | t :: ts, s, d, acc =>
-    match stepCall ext srcs t s d with
-    | none => " ".intercalate ("panic" :: acc).reverse ++ " " ++ showFinal d
-    | some (r, s', d') => runCalls ext srcs ts s' d' (r :: acc)
+    if t == "drop" then
+      match (dropWriter ext s) fa d with
+      | (.panic _, _) => " ".intercalate ("panic" :: acc).reverse
+      | (.ok (_, _), d') => " ".intercalate ("ok" :: acc).reverse ++ " " ++ showFinal d' ++ tail d'
+      | (.err _, d') => " ".intercalate ("ok" :: acc).reverse ++ " " ++ showFinal d' ++ tail d'
+    else
+    match stepCall ext srcs t s d fa with
+    | none => " ".intercalate ("panic" :: acc).reverse
+    | some (r, s', d') => runCallsF ext srcs fa tail ts s' d' (r :: acc)
+
+def runCalls (ext : WExt) (srcs : List (Archive × Dev)) (calls : List String) (s : WState) (d : Dev)
+    (acc : List String) : String :=
+  runCallsF ext srcs none (fun _ => "") calls s d acc
 
 def opWrite (op : String) (a : Args) : Option String := do
   if op != "write.run" then none else
@@ -145,7 +158,7 @@ def opWrite (op : String) (a : Args) : Option String := do
       match newAppend.runPure (Dev.ofBytes b) with
       | (.ok s, d) => some (runCalls ext srcs rest s d ["ok"])
       | (.err e, d) => some ((Out.className e).replace " " ":" ++ " " ++ showFinal d)
-      | (.panic _, d) => some ("panic " ++ showFinal d)
+      | (.panic _, _) => some "panic"
     | _ => some "bad-op"
   | [] => some "bad-op"
 
